@@ -6,7 +6,8 @@ from typing import Any, Dict, List
 
 from harness import core, graphlib as gl
 
-SELS = {"el": (["element"], ["order"]), "elch": (["element", "charge"], ["order"])}
+SELS = {"el": (["element"], ["order"]), "elch": (["element", "charge"], ["order"]),
+        "chel": (["charge", "element"], ["order"])}      # the same selection as elch, attributes listed in the other order
 
 
 def session_case(inp):
@@ -45,8 +46,20 @@ def session_case(inp):
         elif q["op"] == "emb":
             ms = engine(q["sel"], q["flag"], q["unlimited"]).get_mappings(a, b)
             r["res"] = [gl.map_to_seq(m, ids[q["b"] - 1], ids[q["a"] - 1]) if len(m) == b.number_of_nodes() else [0] * b.number_of_nodes() for m in ms]
+        elif q["op"] == "sse":
+            # the search engine's own cheap pre-filter (host a, pattern b): on or off, the result set is the same
+            from synkit.Graph.Matcher.subgraph_matcher import SubgraphSearchEngine
+            ms = SubgraphSearchEngine.find_subgraph_mappings(host=a, pattern=b, node_attrs=["element", "charge"], edge_attrs=["order"],
+                                                             strategy="all", pre_filter=q["flag"])
+            r["res"] = [gl.map_to_seq(m, ids[q["b"] - 1], ids[q["a"] - 1]) if len(m) == b.number_of_nodes() else [0] * b.number_of_nodes() for m in ms]
         elif q["op"] == "giso":
-            if q["impl"] == "find_graph_isomorphism-no-edge-attrs":
+            if q["impl"] == "find_graph_isomorphism-default-edge-match":
+                from networkx.algorithms.isomorphism import generic_node_match
+                from operator import eq
+                nm = generic_node_match(["element", "charge"], ["*", 0], [eq, eq])
+                r["res"] = gmod.find_graph_isomorphism(a, b, node_match=nm, edge_match=None, use_defaults=True,
+                                                       fast_invariant_check=q["flag"]) is not None
+            elif q["impl"] == "find_graph_isomorphism-no-edge-attrs":
                 from networkx.algorithms.isomorphism import generic_node_match
                 from operator import eq
                 nm = generic_node_match(["element", "charge"], ["*", 0], [eq, eq])
@@ -84,7 +97,7 @@ def pair_queries(rng: random.Random) -> List[Dict[str, Any]]:
     """Full query battery on objects 1, 2 (and 3 = relabelled copy of 1), in random order so that the
     shared histogram cache is filled by different engines first."""
     qs = []
-    for sel in ("el", "elch"):
+    for sel in ("el", "elch", "chel"):
         for wl in (False, True):
             for a, b in ((1, 2), (2, 1), (1, 3), (3, 2)):
                 qs.append(Q("iso", sel, a, b, wl))
@@ -96,6 +109,10 @@ def pair_queries(rng: random.Random) -> List[Dict[str, Any]]:
         qs.append(Q("giso", "plain", 1, 3, flag, impl="find_graph_isomorphism"))
         qs.append(Q("giso", "topo", 1, 2, flag, impl="find_graph_isomorphism-no-edge-attrs"))
         qs.append(Q("giso", "topo", 3, 1, flag, impl="find_graph_isomorphism-no-edge-attrs"))
+        qs.append(Q("giso", "plain", 1, 2, flag, impl="find_graph_isomorphism-default-edge-match"))
+        qs.append(Q("giso", "plain", 3, 1, flag, impl="find_graph_isomorphism-default-edge-match"))
+        qs.append(Q("sse", "elch", 1, 2, flag))
+        qs.append(Q("sse", "elch", 2, 1, flag))
         for op in ("sub-induced", "sub-mono"):
             for impl in ("SubgraphMatch.subgraph_isomorphism", "graph_morphism.subgraph_isomorphism", "SubgraphMatch.is_subgraph"):
                 qs.append(Q(op, "plain", 1, 2, flag, impl=impl))
